@@ -846,9 +846,10 @@ fn gen_part3(thorough: bool, rng: &mut Rng, out: &mut dyn FnMut(String), enum_ki
     let heap_huge: Vec<(Vec<usize>, &str)> = vec![(vec![70, 70], "0"), (vec![4100], "none"), (vec![16, 17, 18], "1"), (vec![70, 70], "-1"), (vec![2, 2050], "1"), (vec![4900], "0")];
     for (ti, (ty, _)) in LADDER.iter().enumerate() {
         let pool = if heap_ty(ty) { &heap_huge } else { &copy_huge };
-        let cnt = if thorough { pool.len() } else { 2 };
+        // (quick tier: two per layout, from the first six (Copy layouts) / three (String layouts) of the pool)
+        let (cnt, span) = if thorough { (pool.len(), pool.len()) } else { (2, pool.len() / 2) };
         for j in 0..cnt {
-            let (s, ax) = &pool[(ti * 5 + j * 7) % pool.len()];
+            let (s, ax) = &pool[(ti * 5 + j * 7) % span];
             k += 1;
             let n: usize = s.iter().product();
             let lane = match ax.parse::<isize>() { Ok(a) => s[(if a < 0 { a + s.len() as isize } else { a }) as usize], Err(_) => n };
@@ -959,21 +960,22 @@ fn gen_part3(thorough: bool, rng: &mut Rng, out: &mut dyn FnMut(String), enum_ki
     //      number of lanes: seconds per call, so one or two calls each)
     let top = 100_000_000i64;
     let mut giant: Vec<(Vec<usize>, &str, &str, &str, &str)> = vec![
-        (vec![1 << 20 | 5], "none", "tsort", "e:Mergesort", "i64:p"), (vec![1 << 20 | 5], "0", "tsort", "e:Stable", "f64:p"), (vec![1 << 20 | 5], "none", "tsort", "e:Heapsort", "i64:r"),
-        (vec![1 << 20 | 5], "-1", "tsort", "e:Quicksort", "i64:p"), (vec![1 << 20 | 5], "none", "targmax", "none", "i64:p"), (vec![1 << 20 | 5], "0", "targmin", "true", "f64:p"),
-        (vec![3, 400_001], "1", "tsort", "e:Stable", "i64:p"), (vec![400_001, 3], "0", "tsort", "e:Mergesort", "f64:p"), (vec![400_001, 3], "0", "targmax", "false", "i64:p"),
-        (vec![1031, 1033], "0", "tsort", "e:Heapsort", "i64:p"), (vec![1031, 1033], "1", "tsort", "e:Quicksort", "u8:p"), (vec![1031, 1033], "-1", "targmin", "none", "i64:b"),
-        (vec![2, 131_073, 4], "1", "tsort", "e:Stable", "i64:p"), (vec![2, 3, 174_763], "2", "tsort", "e:Mergesort", "i64:p"), (vec![600, 2, 1000], "2", "tsort", "e:Stable", "i64:p"),
-        (vec![65, 129, 127], "1", "tsort", "e:Quicksort", "i64:p"), (vec![65, 129, 127], "2", "targmax", "true", "i64:p"),
-        (vec![65_537, 2], "1", "tsort", "e:Quicksort", "i64:p"), (vec![2, 65_537], "0", "targmax", "none", "i64:p")];
+        (vec![1 << 20 | 5], "none", "tsort", "e:Mergesort", "i64:p"), (vec![1 << 20 | 5], "0", "tsort", "e:Stable", "f64:p"), (vec![1 << 20 | 5], "none", "targmax", "none", "i64:p"),
+        (vec![3, 400_001], "1", "tsort", "e:Heapsort", "i64:p"), (vec![400_001, 3], "0", "tsort", "e:Mergesort", "f64:p"),
+        (vec![2, 131_073, 4], "1", "tsort", "e:Stable", "i64:p"), (vec![2, 3, 174_763], "2", "tsort", "e:Quicksort", "i64:p"),
+        // more than 65 536 lanes (the crate's cost is lanes x bytes of the array: one-byte elements in the quick tier)
+        (vec![65_537, 2], "1", "tsort", "e:Mergesort", "u8:p")];
     if thorough { giant.extend([
+        (vec![1 << 20 | 5], "none", "tsort", "e:Heapsort", "i64:r"), (vec![1 << 20 | 5], "-1", "tsort", "e:Quicksort", "i64:p"), (vec![1 << 20 | 5], "0", "targmin", "true", "f64:p"),
         (vec![1 << 20 | 5], "0", "tsort", "s:535441424c45", "i64:b"), (vec![2_097_153], "none", "tsort", "e:Mergesort", "i64:p"), (vec![2_097_153], "0", "tsort", "e:Stable", "f64:p"), (vec![2_097_153], "none", "targmin", "none", "i64:p"),
-        (vec![3, 400_001], "-1", "tsort", "e:Heapsort", "f64:b"), (vec![3, 400_001], "1", "targmax", "true", "i64:p"), (vec![400_001, 3], "-2", "tsort", "e:Quicksort", "i64:p"),
+        (vec![3, 400_001], "1", "tsort", "e:Stable", "i64:p"), (vec![3, 400_001], "-1", "tsort", "e:Mergesort", "f64:b"), (vec![3, 400_001], "1", "targmax", "true", "i64:p"), (vec![400_001, 3], "-2", "tsort", "e:Quicksort", "i64:p"), (vec![400_001, 3], "0", "targmax", "false", "i64:p"),
         (vec![5, 70_000, 4], "1", "tsort", "e:Mergesort", "i64:p"), (vec![5, 70_000, 4], "-2", "targmin", "false", "f64:p"), (vec![2, 131_073, 4], "-2", "tsort", "e:Heapsort", "f64:p"), (vec![2, 131_073, 4], "1", "targmax", "none", "i64:p"),
-        (vec![2, 3, 174_763], "-1", "tsort", "e:Stable", "f64:p"), (vec![600, 2, 1000], "-1", "tsort", "e:Quicksort", "i64:b"), (vec![600, 2, 1000], "2", "targmax", "none", "i64:p"), (vec![1031, 1033], "1", "tsort", "e:Stable", "L12:p"), (vec![1031, 1033], "0", "tsort", "e:Mergesort", "L32:p"),
-        (vec![65, 129, 127], "-2", "tsort", "e:Mergesort", "f64:p"), (vec![65, 129, 127], "0", "tsort", "e:Stable", "i64:p"), (vec![4099, 257], "1", "tsort", "e:Heapsort", "i64:p"), (vec![4099, 257], "1", "targmin", "true", "i64:p"),
-        (vec![65_537, 2], "-1", "targsort", "e:Stable", "i64:p"), (vec![65_537, 2], "1", "targmin", "false", "f64:p"), (vec![2, 65_537], "0", "tsort", "e:Mergesort", "f64:p"), (vec![70_001, 3], "1", "tsort", "e:Stable", "i64:p"), (vec![3, 70_001], "-2", "targmax", "true", "i64:p"),
-        (vec![65_537, 16], "1", "tsort", "e:Heapsort", "i64:p")]); }
+        (vec![2, 3, 174_763], "-1", "tsort", "e:Stable", "f64:p"), (vec![2, 3, 174_763], "2", "tsort", "e:Mergesort", "i64:p"), (vec![600, 2, 1000], "-1", "tsort", "e:Quicksort", "i64:b"), (vec![600, 2, 1000], "2", "tsort", "e:Stable", "i64:p"), (vec![600, 2, 1000], "2", "targmax", "none", "i64:p"),
+        (vec![1031, 1033], "0", "tsort", "e:Heapsort", "i64:p"), (vec![1031, 1033], "1", "tsort", "e:Quicksort", "u8:p"), (vec![1031, 1033], "-1", "targmin", "none", "i64:b"), (vec![1031, 1033], "1", "tsort", "e:Stable", "L12:p"), (vec![1031, 1033], "0", "tsort", "e:Mergesort", "L32:p"),
+        (vec![65, 129, 127], "1", "tsort", "e:Quicksort", "i64:p"), (vec![65, 129, 127], "2", "targmax", "true", "i64:p"), (vec![65, 129, 127], "-2", "tsort", "e:Mergesort", "f64:p"), (vec![65, 129, 127], "0", "tsort", "e:Stable", "i64:p"), (vec![4099, 257], "1", "tsort", "e:Heapsort", "i64:p"), (vec![4099, 257], "1", "targmin", "true", "i64:p"),
+        (vec![65_537, 2], "1", "tsort", "e:Quicksort", "i64:p"), (vec![2, 65_537], "0", "targmax", "none", "i64:p"), (vec![65_537, 2], "-1", "targsort", "e:Stable", "i64:p"), (vec![65_537, 2], "1", "targmin", "false", "f64:p"), (vec![2, 65_537], "0", "tsort", "e:Mergesort", "f64:p"),
+        (vec![70_001, 3], "1", "tsort", "e:Stable", "i64:p"), (vec![3, 70_001], "-2", "targmax", "true", "i64:p"), (vec![65_537, 1], "1", "tsort", "e:Heapsort", "i64:p"), (vec![1, 65_537], "0", "targsort", "e:Mergesort", "u8:p"),
+        (vec![65_537, 16], "1", "tsort", "e:Heapsort", "u8:p")]); }
     for (s, ax, op, arg, tr) in &giant {
         let (p, hi) = if tr.starts_with("u8") || tr.starts_with('L') { (0, 255) } else { (1, top) };
         out(format!("{op} {tr} G{p}.{}.{hi}:{} {ax} {arg} ref", rng.next() % 100000, show_list(s)));
@@ -1503,7 +1505,15 @@ fn probe_case(op: &str, args: &[&str]) -> Option<String> {
     if is_typed(op) { match typed_dispatch(op, args, "", true)? { Verdict::Open(t) => Some(t), _ => None } } else { base_observe(op, args) }
 }
 
+/// `VERIF_SLOW=<seconds>`: print the case lines that take longer (diagnostics only)
 fn exec(op: &str, args: &[&str], expected: &str) -> Option<Verdict> {
+    thread_local! { static SLOW: Option<f64> = std::env::var("VERIF_SLOW").ok().and_then(|v| v.parse().ok()); }
+    let t0 = std::time::Instant::now();
+    let v = exec_case(op, args, expected);
+    if let Some(lim) = SLOW.with(|s| *s) { let dt = t0.elapsed().as_secs_f64(); if dt > lim { eprintln!("SLOW {dt:.3}s {op} {}", truncate(&args.join(" "), 200)); } }
+    v
+}
+fn exec_case(op: &str, args: &[&str], expected: &str) -> Option<Verdict> {
     if op == "refstats" {
         let (v, u, b, aba) = (REF_VALIDATED.with(Cell::get), REF_USED.with(Cell::get), REF_BROKEN.with(Cell::get), ABA_RUNS.with(Cell::get));
         let text = format!("ok native reference (lane membership + stable sort / first extreme): compared with the model on {v} cases of this run ({b} disagreements), used in place of the model on {u} cases; A-B-A re-runs {aba}");
